@@ -211,8 +211,3 @@ def run(ctx):
 
 def search(ctx, disagreements):
     return []
-
-
-def replay(payload):
-    print(payload.get("case"))
-    return 0
